@@ -281,4 +281,141 @@ theorem l_applyCancelU (ub : List Beh) (st : St) (k : Int) : LStep st (applyCanc
     · exact (g4_with_log _ _).lstep
     · exact (g4_with_log _ _).lstep.trans (l_doCancelU ub _ k)
 
+/-! ### `R2`: the two queues, liveness, the cancel requests -/
+
+theorem r2_runUAct (st : St) (act : Act) (hk : K st) : R2 [] st (runUAct st act) := by
+  unfold runUAct
+  split
+  · exact R2.refl _ _
+  · exact r2_runAct _ _ hk
+
+theorem r2_runUActs (acts : List Act) : ∀ st : St, K st → R2 [] st (runUActs st acts) := by
+  unfold runUActs
+  induction acts with
+  | nil => intro st _; exact R2.refl _ st
+  | cons a rest ih =>
+    intro st hk
+    simp only [List.foldl_cons]
+    by_cases hok : st.isOk = true
+    · rw [if_pos hok]
+      have k1 : K (st.emit .a) := K.of_q (Q.of_q0 (q0_emit st _)) hk
+      exact ((r2_emit [] st _).trans (r2_runUAct _ a k1)).trans (ih _ (K.of_q (q_runUAct _ a) k1))
+    · rw [if_neg hok]
+      exact ih _ hk
+
+theorem r2_notifyU (E : List Nat) (ub : List Beh) (st : St) (a : Nat) (hk : K st) : R2 E st (notifyU ub st a) := by
+  unfold notifyU
+  split
+  · exact (r2_notify E st a EV_UNBIND).trans
+      ((r2_runUActs _ _ (K.of_q (Q.of_q0 (q0_notify st a EV_UNBIND)) hk)).mono (fun x hx => by cases hx))
+  · exact R2.refl _ _
+
+theorem r2_cancelNotifyU (E : List Nat) (ub : List Beh) (st : St) (a : Nat) (w : Watch) (hk : K st) :
+    R2 E st (cancelNotifyU ub st a w) := by
+  unfold cancelNotifyU
+  split
+  · exact r2_notifyU E ub st a hk
+  · exact R2.refl _ _
+
+/-- `tickit_watch_cancel` once the watch has been found, the handler acting: the watch is excepted (allocated, in no
+    queue) from the unlink to the `free`; what the handler registered is queued by `runActs`. -/
+theorem r2_cancelFoundU (ub : List Beh) (st : St) (a : Nat) (hk : K st) (hlt : a < st.heap.length)
+    (ha : isOneShot (st.getW a).type = false ∨ (st.getW a).slot ∈ st.cancelReq ∨ (st.getW a).slot < 0) :
+    R2 [] st (cancelFoundU ub st a (st.getW a) (listOf st (st.getW a).type)) := by
+  unfold cancelFoundU cancelUnlinkedU
+  have h1 := r2_setListOf_erase st (st.getW a).type a
+  have kE : K (setListOf st (st.getW a).type ((listOf st (st.getW a).type).erase a)) := K.of_q (Q.of_q0 (q0_setListOf st _ _)) hk
+  generalize setListOf st (st.getW a).type ((listOf st (st.getW a).type).erase a) = sE at *
+  have h2 := r2_cancelNotifyU [a] ub sE a (st.getW a) kE
+  have h3 := r2_cancelHook [a] (cancelNotifyU ub sE a (st.getW a)) (st.getW a).type (st.getW a).evi
+  have h123 := (h1.trans h2).trans h3
+  generalize (cancelHook (cancelNotifyU ub sE a (st.getW a)) (st.getW a).type (st.getW a).evi) = s3 at *
+  have h4 := r2_free [a] s3 a (by
+    rcases ha with e | e | e
+    · exact Or.inl (h123.h.notOneShot hlt e)
+    · exact Or.inr (Or.inl (by rw [h123.h.slot a hlt]; exact h123.creq _ e))
+    · exact Or.inr (Or.inr (by rw [h123.h.slot a hlt]; exact e)))
+  refine ((h123.trans h4).trans (r2_cancelRest [a] (s3.free a) _)).drop ?_
+  intro hok x hx
+  simp only [List.mem_singleton] at hx
+  subst hx
+  left
+  rw [live_cancelRest]
+  exact dead_after_free s3 x (isOk_cancelRest _ _ hok)
+
+theorem r2_cancelDetachedU (E : List Nat) (ub : List Beh) (st : St) (a : Nat) (hk : K st) : R2 E st (cancelDetachedU ub st a) := by
+  unfold cancelDetachedU
+  refine (r2_cancelNotifyU E ub st a (st.getW a) hk).trans ?_
+  exact r2_setW_keep E _ a _ rfl rfl (Or.inr rfl) rfl
+
+theorem r2_watchCancel0U (E : List Nat) (ub : List Beh) (st : St) (a : Nat) (hk : K st)
+    (ha : isOneShot (st.getW a).type = false ∨ (st.getW a).slot ∈ st.cancelReq ∨ (st.getW a).slot < 0) :
+    R2 E st (watchCancel0U ub st a) := by
+  unfold watchCancel0U
+  split
+  · exact R2.refl _ st
+  · split
+    · exact r2_fail _ _ _
+    · rename_i hlive
+      split
+      · exact R2.refl _ st
+      · split
+        · exact r2_fail _ _ _
+        · split
+          · split
+            · exact r2_cancelDetachedU E ub st a hk
+            · exact R2.refl _ st
+          · exact (r2_cancelFoundU ub st a hk (St.live_lt (not_of_not_eq_true hlive)) ha).mono (fun x hx => by cases hx)
+
+theorem r2_watchCancelU (E : List Nat) (ub : List Beh) (st : St) (a : Nat) (hk : K st)
+    (ha : isOneShot (st.getW a).type = false ∨ (st.getW a).slot ∈ st.cancelReq ∨ (st.getW a).slot < 0)
+    (hn : ∀ l, (st.getW a).notify = some l → l < st.heap.length ∧ (st.getW l).slot < 0) : R2 E st (watchCancelU ub st a) := by
+  unfold watchCancelU
+  split
+  · split
+    · rename_i l hl
+      have h1 := r2_watchCancel0U E ub st a hk ha
+      obtain ⟨n1, n2⟩ := hn l hl
+      exact h1.trans (r2_watchCancel0 E _ l (Or.inr (Or.inr (by rw [h1.h.slot l n1]; exact n2))))
+    · exact r2_watchCancel0U E ub st a hk ha
+  · exact r2_watchCancel0U E ub st a hk ha
+
+theorem r2_doCancelU (ub : List Beh) (st : St) (k : Int) (hk : K st) : R2 [] st (doCancelU ub st k) := by
+  unfold doCancelU
+  split
+  · exact r2_emit _ _ _
+  · rename_i r hsome
+    obtain ⟨hr, hrk⟩ := findSlot_some hsome
+    have h1 : R2 [] st { st with cancelReq := k :: st.cancelReq } :=
+      ⟨MH.of_heap_eq rfl rfl, rfl, fun x hx => List.mem_cons_of_mem _ hx, fun _ x hx _ => Or.inl hx, fun _ x hx _ => Or.inl hx,
+       fun _ x h1 h2 => (by have : ({ st with cancelReq := k :: st.cancelReq } : St).heap.length = st.heap.length := rfl; omega),
+       fun x hx hlv hd => (by
+         have e : ({ st with cancelReq := k :: st.cancelReq } : St).live x = st.live x := rfl
+         rw [e, hlv hx] at hd; cases hd)⟩
+    have k1 : K ({ st with cancelReq := k :: st.cancelReq } : St) := K.of_q (Q.of_q0 (q0_with_cancelReq st _)) hk
+    refine h1.trans (r2_watchCancelU [] ub _ r.handle k1 (Or.inr (Or.inl ?_)) (fun l hl => hk.p3 r.handle (hk.s3 r hr).1 l hl))
+    show (st.getW r.handle).slot ∈ k :: st.cancelReq
+    rw [(hk.s3 r hr).2, hrk]
+    exact List.mem_cons_self
+
+theorem r2_with_log (E : List Nat) (st : St) (l : List Ev) : R2 E st { st with log := l } := R2.of_eq rfl rfl rfl rfl rfl rfl
+
+theorem r2_applyCancelU (ub : List Beh) (st : St) (k : Int) (hk : K st) : R2 [] st (applyCancelU ub st k) := by
+  unfold applyCancelU
+  split
+  · exact r2_with_log _ _ _
+  · split
+    · exact r2_with_log _ _ _
+    · exact (r2_with_log [] st []).trans (r2_doCancelU ub _ k (K.of_q (Q.of_q0 (q0_with_log st [])) hk))
+
+/-! ### the bundle and the queue invariant survive the operation -/
+
+/-- The harness's `cancel k` from outside any callback, the unbind handler acting (whatever it registers, raises or
+    sets): lists well formed, slot table, at-most-once, allocated ⇒ queued, gone ⇒ invoked or cancel asked. -/
+theorem b_applyCancelU (ub : List Beh) (st : St) (k : Int) : BStep [] st (applyCancelU ub st k) :=
+  fun b => BStep.of_q (q_applyCancelU ub st k) (l_applyCancelU ub st k) (r2_applyCancelU ub st k b.k) b
+
+theorem qinv_applyCancelU (ub : List Beh) (st : St) (k : Int) (q : QInv st) : QInv (applyCancelU ub st k) :=
+  (pres_applyCancelU ub st k).qinv q
+
 end Tickit.EvLoop
